@@ -137,6 +137,9 @@ F1_SIG = {"site": "daemons._runner/application.apply vs queueing.worker",
 VER_RE = re.compile(r"(\d+)(~which~never~arrives)?")
 
 
+ASSUMPTIONS = ASSUMPTIONS + x01_reactor.ASSUMPTIONS
+TRUSTED = TRUSTED + x01_reactor.TRUSTED
+
 def ticks(x: float | None) -> int | None:
     if x is None:
         return None
